@@ -30,6 +30,14 @@ from ..utilities import directive_arguments
 T = TypeVar("T")
 GroupedFields = Dict[str, List[ast.Field]]
 
+SkipSelectionCallable = Callable[
+    [
+        Union[ast.Field, ast.InlineFragment, ast.FragmentSpread],
+        Mapping[str, Any],
+    ],
+    bool,
+]
+
 InclueCallable = Callable[
     [Union[ast.Field, ast.InlineFragment, ast.FragmentSpread]], bool
 ]
@@ -110,13 +118,18 @@ def collect_fields_untyped(
     fragments: Mapping[str, ast.FragmentDefinition],
     variables: Mapping[str, Any],
     _seen_fragments: Optional[Set[str]] = None,
+    *,
+    skip_selection: Optional[SkipSelectionCallable] = None
 ) -> GroupedFields:
     _seen_fragments = _seen_fragments or set()
+    # How @skip / @include are evaluated, defaults to the strict evaluation
+    # which raises CoercionError on unusable variables.
+    skip = skip_selection or _skip_selection
     grouped_fields = OrderedDict()  # type: GroupedFields
 
     for selection in selections:
         if isinstance(selection, ast.Field):
-            if _skip_selection(selection, variables):
+            if skip(selection, variables):
                 continue
 
             key = selection.response_name
@@ -127,7 +140,7 @@ def collect_fields_untyped(
             grouped_fields[key].append(selection)
 
         elif isinstance(selection, ast.InlineFragment):
-            if _skip_selection(selection, variables):
+            if skip(selection, variables):
                 continue
 
             _merge(
@@ -136,13 +149,14 @@ def collect_fields_untyped(
                     fragments,
                     variables,
                     _seen_fragments,
+                    skip_selection=skip_selection,
                 ),
                 into=grouped_fields,
             )
 
         elif isinstance(selection, ast.FragmentSpread):
             name = selection.name.value
-            if _skip_selection(selection, variables) or name in _seen_fragments:
+            if skip(selection, variables) or name in _seen_fragments:
                 continue
 
             try:
@@ -158,6 +172,7 @@ def collect_fields_untyped(
                     fragments,
                     variables,
                     _seen_fragments,
+                    skip_selection=skip_selection,
                 ),
                 into=grouped_fields,
             )
